@@ -75,16 +75,13 @@ Qed.
 
 (* ---------- check_dirs ---------- *)
 Lemma check_dirs_ok f : forall rest acc,
-  (forall q r, q <> [] -> r <> [] -> rest = q ++ r ->
-     is_link (fs_lookup f (acc ++ q)) = false /\ is_file (fs_lookup f (acc ++ q)) = false) ->
+  (forall q r, q <> [] -> r <> [] -> rest = q ++ r -> is_link (fs_lookup f (acc ++ q)) = false) ->
   check_dirs f acc rest = true.
 Proof.
   induction rest as [|x rest IH]; intros acc Hc; simpl; [reflexivity|].
   destruct rest as [|y rest']; [reflexivity|].
-  destruct (Hc [x] (y :: rest')) as [Hl Hf]; [discriminate|discriminate|reflexivity|].
-  rewrite Hl, Hf. simpl.
-  replace (match rest' with [] => true | _ :: _ => true end) with true by (destruct rest'; reflexivity).
-  simpl. apply IH. intros q r Hq Hr E.
+  rewrite (Hc [x] (y :: rest')); [|discriminate|discriminate|reflexivity]. simpl.
+  apply IH. intros q r Hq Hr E.
   rewrite <- app_assoc. apply (Hc (x :: q) r); [discriminate|exact Hr|]. simpl. now rewrite E.
 Qed.
 
@@ -114,12 +111,9 @@ Section RoundTrip.
   Proof.
     intros (Hs & Hf & _). induction rest as [|x rest IH]; intros acc Hc; simpl in *; [reflexivity|].
     destruct rest as [|y rest']; [reflexivity|].
-    apply andb_true_iff in Hc as [H1 H3]. apply andb_true_iff in H1 as [H1 H2].
-    rewrite (IH _ H3), andb_true_r.
-    destruct (fs_lookup f (acc ++ [x])) as [[c m|m|tg]|] eqn:E; simpl;
-      try (destruct rest'; reflexivity).
-    - destruct rest'; [reflexivity|]. apply Hf in E. rewrite E in H2. discriminate.
-    - apply Hs in E. rewrite E in H1. discriminate.
+    apply andb_true_iff in Hc as [H1 H2]. rewrite (IH _ H2), andb_true_r.
+    destruct (fs_lookup f (acc ++ [x])) as [[c m|m|tg]|] eqn:E; try reflexivity.
+    apply Hs in E. rewrite E in H1. discriminate.
   Qed.
 
   (* ---------- modes ---------- *)
@@ -177,7 +171,7 @@ Section RoundTrip.
     check_dirs f [] rel = true.
   Proof.
     intro Hd. apply check_dirs_ok. intros q r _ Hr E. simpl.
-    destruct (Hd q r Hr E) as [m ->]. split; reflexivity.
+    destruct (Hd q r Hr E) as [m ->]. reflexivity.
   Qed.
 
   (* ---------- expected ---------- *)
